@@ -1,13 +1,13 @@
 SPECIFICATION Spec
 CONSTANTS
   CertKeys = {"k1","k2"}
-  EncKeys = {"e1","e2"}
+  EncKeys = {"e1"}
   Nonces = {"n1"}
   Tokens = {"t1","t2"}
   AppStates = {"s1"}
   NodeIds = {"N1"}
   Enabled = {"Authorize","Token","Remove","Fetch","Tamper","Regw"}
-  MaxGen = 2
+  MaxGen = 3
   CfgSW = TRUE
   CfgNidl = FALSE
   CfgSO = FALSE
